@@ -223,9 +223,35 @@ pub struct ExecReport {
     pub real: Real,
     pub polls: u64,
     pub poll_limit_hit: bool,
+    /// the first budget was exhausted and the run was repeated with a wider one
+    pub escalated: bool,
 }
 
+/// `execute`, and when the poll budget runs out once more with twenty times the budget: a
+/// program that is merely heavy finishes then; `poll_limit_hit` is only reported when the larger
+/// budget is exhausted as well (bounded-progress verdict on the logical clock, not on time).
 pub fn execute(
+    file: &File,
+    tree: &Tree,
+    source: &str,
+    ti: &TreeInfo,
+    globals: &BTreeMap<String, MVal>,
+    functions: &Functions,
+    opts: &ExecOpts,
+) -> ExecReport {
+    let first = execute_once(file, tree, source, ti, globals, functions, opts);
+    if !first.poll_limit_hit {
+        return first;
+    }
+    let mut wider = ExecOpts::new(opts.lazy);
+    wider.debug_attrs = opts.debug_attrs;
+    wider.poll_limit = opts.poll_limit.saturating_mul(20);
+    let mut second = execute_once(file, tree, source, ti, globals, functions, &wider);
+    second.escalated = true;
+    second
+}
+
+fn execute_once(
     file: &File,
     tree: &Tree,
     source: &str,
@@ -275,6 +301,7 @@ pub fn execute(
         real,
         polls,
         poll_limit_hit,
+        escalated: false,
     }
 }
 
